@@ -13,6 +13,7 @@ import (
 	enumspb "go.temporal.io/api/enums/v1"
 	historypb "go.temporal.io/api/history/v1"
 	"go.temporal.io/server/api/adminservice/v1"
+	replicationpb "go.temporal.io/server/api/replication/v1"
 	"go.temporal.io/server/common/log"
 	"go.temporal.io/server/common/log/tag"
 	"go.temporal.io/server/common/persistence/serialization"
@@ -139,15 +140,45 @@ func blobStagesFor(data []byte) blobStages {
 	return s
 }
 
+var c17BlobCarrier int
+
 func c17Blob(e *Env, data []byte, kind string) {
 	setup := "#blob " + hexOf(data)
 	e.Emit(setup, "#")
 	st := blobStagesFor(data)
 	in := &commonpb.DataBlob{EncodingType: enumspb.ENCODING_TYPE_PROTO3, Data: append([]byte(nil), data...)}
-	resp := &adminservice.GetWorkflowExecutionRawHistoryV2Response{HistoryBatches: []*commonpb.DataBlob{in}}
+	// the same bytes in one of three carriers: a repeated blob field and two single-blob fields (the translated / repaired
+	// blob has to be written back into the message in each of them)
 	lg := &blobLog{kind: "none"}
-	matched, err := interceptor.NewNamespaceNameTranslator(lg, blobNsMap, blobNsMap).TranslateResponse(resp)
-	out := resp.HistoryBatches[0]
+	tr := interceptor.NewNamespaceNameTranslator(lg, blobNsMap, blobNsMap)
+	var matched bool
+	var err error
+	var out *commonpb.DataBlob
+	carrier := c17BlobCarrier % 3
+	c17BlobCarrier++
+	switch carrier {
+	case 0:
+		resp := &adminservice.GetWorkflowExecutionRawHistoryV2Response{HistoryBatches: []*commonpb.DataBlob{in}}
+		matched, err = tr.TranslateResponse(resp)
+		out = resp.HistoryBatches[0]
+	default:
+		attrs := &replicationpb.HistoryTaskAttributes{NamespaceId: "ns-id", WorkflowId: "wf"}
+		if carrier == 1 {
+			attrs.Events = in
+		} else {
+			attrs.NewRunEvents = in
+		}
+		resp := &adminservice.StreamWorkflowReplicationMessagesResponse{Attributes: &adminservice.StreamWorkflowReplicationMessagesResponse_Messages{
+			Messages: &replicationpb.WorkflowReplicationMessages{ReplicationTasks: []*replicationpb.ReplicationTask{{SourceTaskId: 1,
+				Attributes: &replicationpb.ReplicationTask_HistoryTaskAttributes{HistoryTaskAttributes: attrs}}}, ExclusiveHighWatermark: 2}}}
+		matched, err = tr.TranslateResponse(resp)
+		if carrier == 1 {
+			out = attrs.Events
+		} else {
+			out = attrs.NewRunEvents
+		}
+	}
+	e.Count(fmt.Sprintf("blob_carrier_%d", carrier))
 	result := "unchanged"
 	switch {
 	case err != nil:
